@@ -77,16 +77,18 @@ def main(tier):
                          "1 || {T}", "0 || {T}", "0 && {T}", "null ?? {T}", "-{T}", "{T}*{T}", "x={T}; x+x", "&cv={T}; cv+cv", "func fn(pa){{ pa+{T} }}; fn({T})",
                          "if {T} {{ y=1 }}; y", "i=0; while i<3 {{ i=i+1; {T} }}", "2d6+{T}", "({T})d6k1 > 0", "[{T}..{T}]", "{T};{T}", "  {T}  ", "{T} x", "^st力量:{T}"]
         acting = []
-        for tpl in ctx_templates:
-            for n in r.sample(range(0, 99), 2):
-                src = tpl.replace("{T}", f"E{n}")
-                acting.append((src, tpl, n))
-        lines = [f"custom -,L30000 {1:032x} {spec},spnever:2 {hx(src)}" for src, tpl, n in acting]
+        # (the matched text is ASCII in one syntax and multi-byte in the others: lengths are bytes in one place and runes in another)
+        for apat, head in (("E(\\d+)", "E"), ("力量(\\d+)", "力量"), ("暴击(\\d+)x", "暴击")):
+            for tpl in ctx_templates:
+                for n in r.sample(range(0, 99), 2 if head == "E" else 1):
+                    term = f"{head}{n}" + ("x" if head == "暴击" else "")
+                    acting.append((tpl.replace("{T}", term), tpl, n, apat, term))
+        lines = [f"custom -,L30000 {1:032x} re:{hx(apat)},spnever:2 {hx(src)}" for src, tpl, n, apat, term in acting]
         out = go_child(line_timeout=20).run(lines)
-        for (src, tpl, n), o in zip(acting, out):
+        for (src, tpl, n, apat, term), o in zip(acting, out):
             run.evaluations += 1
             run.count("acting.cases")
-            rep = {"source": src, "registered": pat, "implementation": o[:500]}
+            rep = {"source": src, "registered": apat, "implementation": o[:500]}
             if not o.startswith("ok "):
                 # a custom term is an operand like a number: the same template with a number must fail too
                 run.count("acting.error")
@@ -97,7 +99,7 @@ def main(tier):
             m = re.search(r" calls=(\S+)", o)
             calls = unhx(m.group(1)).decode("utf-8", "replace").split("\x1e") if m and m.group(1) != "-" else []
             rr = re.search(r" rerun=(\S+)", o)
-            bad = [c for c in calls if c != f"re:{pat}|E{n}\x1fE{n}\x1f{n}|<nil>".replace(f"E{n}\x1fE{n}", f"E{n}") and c != f"re:{pat}|E{n}\x1f{n}|<nil>"]
+            bad = [c for c in calls if c != f"re:{apat}|{term}\x1f{n}|<nil>"]
             if bad:
                 run.violation("handler-received-wrong-text-or-groups", dict(rep, calls=calls))
             elif rr and rr.group(1) != "err" and int(rr.group(1)) != len(calls):
@@ -138,6 +140,48 @@ def main(tier):
             else:
                 run.nontriv(("act2", src))
                 run.count("acting-stream.calls", len(calls))
+        # ---------- (2e) a stream parser that refills ONE groups buffer on every match: each compiled operand keeps the groups it was matched with
+        sg, sgm = [], []
+        for tpl in ("{A} + {B}", "[{A}, {B}, {A}]", "{A} * {B} - {A}", "x = {A}; y = {B}; x + y", "func fn(pa){ pa + {B} }; fn({A})", "{A} ? {B} : {A}", "`{{A}}-{{B}}`"):
+            a1, a2, b1, b2 = (r.randint(0, 99) for _ in range(4))
+            A, B = f"C{a1}T{a2}", f"C{b1}T{b2}"
+            sg.append(f"custom -,L30000 {1:032x} spgroups {hx(tpl.replace('{A}', A).replace('{B}', B))}")
+            sgm.append((tpl.replace('{A}', A).replace('{B}', B), {A: (a1, a2), B: (b1, b2)}))
+        for (src, terms), o in zip(sgm, go_child(line_timeout=20).run(sg)):
+            run.evaluations += 1
+            run.count("groups-buffer.cases")
+            m = re.search(r" calls=(\S+)", o)
+            calls = unhx(m.group(1)).decode("utf-8", "replace").split("\x1e") if m and m.group(1) != "-" else []
+            bad = []
+            for c in calls:
+                f_ = c.split("|", 1)[1].split("\x1f") if "|" in c else []
+                if len(f_) != 3 or f_[0] not in terms or (int(f_[1]), int(f_[2])) != terms[f_[0]]:
+                    bad.append(c)
+            if bad or not calls:
+                run.violation("handler-received-another-operand's-groups", {"source": src, "registered": "stream parser C<d>T<d> reusing its groups buffer",
+                                                                             "calls": calls, "implementation": o[:400]})
+            else:
+                run.nontriv(("spgroups", src))
+        # ---------- (2f) a load hook that RENAMES (strips the prefix 困难): the program with prefixed names means what the program with the
+        #            plain names means — for script variables, names served by the host's global table, and builtins
+        import json as _json
+        gdoc = "gjson:" + hx(_json.dumps({"力量": {"t": 0, "v": 60}, "敏捷": {"t": 0, "v": 45}, "gcv": {"t": 5, "v": {"expr": "力量 + 1"}}}, ensure_ascii=False))
+        rn, rnm = [], []
+        for body in ("{P}力量 + 1", "{P}力量 * {P}敏捷", "{P}gcv + {P}力量", "lv = 5; {P}lv + {P}力量", "{P}floor(2.5) + {P}敏捷", "func fn(pa){ {P}pa + {P}力量 }; fn(2)",
+                     "&lc = {P}力量 + 2; {P}lc", "{P}nosuch ?? 3", "[{P}力量, {P}敏捷].sum()", "`{{P}力量}`", "{P}abs(0 - {P}力量)"):
+            rn.append(f"custom -,L30000 {1:032x} hookren,{gdoc} {hx(body.replace('{P}', '困难'))}")
+            rn.append(f"custom -,L30000 {1:032x} {gdoc} {hx(body.replace('{P}', ''))}")
+            rnm.append(body)
+        ro = go_child(line_timeout=20).run(rn)
+        for i, body in enumerate(rnm):
+            a, b = ro[2 * i].split(), ro[2 * i + 1].split()
+            run.evaluations += 1
+            run.count("rename-hook.cases")
+            if a[:2] != b[:2] and not (a[0] != "ok" and b[0] != "ok"):
+                run.violation("load-hook-rename-not-honoured", {"program_with_prefixed_names": body.replace("{P}", "困难"), "with_renaming_hook": ro[2 * i][:300],
+                                                                "program_with_plain_names": body.replace("{P}", ""), "without_hook": ro[2 * i + 1][:300]})
+            else:
+                run.nontriv(("rename", body))
         # ---------- (2d) groups: one entry per capture group of the pattern, in order, "" for a group that took no part in the match
         gp = [("E(\\d+)?(k\\d+)?(!)?", ["Ek3", "E12", "E12k3!", "E!", "E", "E7!", "Ek9!"]), ("#(a)?(b)?(c)?#", ["##", "#a#", "#b#", "#c#", "#ac#", "#abc#"]),
               ("Z(?:(x)|(y))(\\d*)", ["Zx", "Zy", "Zx12", "Zy3"]), ("Q(\\d+)(?:-(\\d+))?", ["Q5", "Q5-7"])]
